@@ -86,7 +86,7 @@ def build(case, workdir, idlc, *, ifaces=None, valuations=3, seed=0):
         "langs": ["java"], "valuations": valuations, "seed": seed,
         "calls": [
             {"iface": i, "method": m["name"], "owner": owner, "op": op,
-             "optional": bool(m.get("optional")), "params": m["params"],
+             "optional": bool(m.get("optional") and not m.get("implemented")), "params": m["params"],
              "vals": plans[(i, m["name"])]}
             for i in ifaces for owner, m, op in idl.flat_methods(case, i)],
         "notes": [],
